@@ -69,23 +69,7 @@ func runC04(p *Prog, r *Report) {
 	}
 
 	if want("C04.2") {
-		r.Begin("C04.2", "E-ORD", "acknowledge after logging: in writeLocked the buffer insert, the sequence publication and the success unlock are reached only after writeJournal returned nil", 3)
-		if fn := resolveFn(p, r, "leveldb", "(*DB).writeLocked"); fn != nil {
-			wj := evCall("(*leveldb.DB).writeJournal")
-			errWJ := mErrOfCall("(*leveldb.DB).writeJournal")
-			putMem := evCall("(*leveldb.Batch).putMem")
-			addSeq := evCall("(*leveldb.DB).addSeq")
-			okUnlock := andPred(evCall("(*leveldb.DB).unlockWrite"), func(in ssa.Instruction) bool {
-				cc := callCommon(in)
-				return cc != nil && len(cc.Args) == 4 && isNilConst(cc.Args[3])
-			})
-			ordPrecede(p, r, fn, "journal-before-putMem", nil, wj, "writeJournal", putMem, "batch.putMem")
-			ordPrecede(p, r, fn, "journal-before-addSeq", nil, wj, "writeJournal", addSeq, "db.addSeq")
-			ordPrecede(p, r, fn, "journal-before-ack", nil, wj, "writeJournal", okUnlock, "unlockWrite(.., nil)")
-			ordNotOnError(p, r, fn, "putMem-not-on-journal-error", errWJ, "writeJournal", wj, putMem, "batch.putMem")
-			ordNotOnError(p, r, fn, "ack-not-on-journal-error", errWJ, "writeJournal", wj, okUnlock, "unlockWrite(.., nil)")
-		}
-		r.End()
+		ruleAckAfterLog(p, r, "C04.2")
 	}
 
 	if want("C04.3") {
@@ -205,14 +189,7 @@ func runC04(p *Prog, r *Report) {
 	}
 
 	if want("C04.6") {
-		r.Begin("C04.6", "E-ORD", "install after durable: session.commit installs the new version only after the manifest write succeeded", 2)
-		if fn := resolveFn(p, r, "leveldb", "(*session).commit"); fn != nil {
-			manWrite := evCall(fNewMan, fFlushMan)
-			ordPrecede(p, r, fn, "manifest-before-install", nil, manWrite, "newManifest/flushManifest", evCall(fSetVer), "setVersion")
-			ordNotOnError(p, r, fn, "no-install-on-error", mCellNamed("err"), "the manifest write", nil, evCall(fSetVer), "setVersion")
-			ordOnSuccess(p, r, fn, "installed-on-success", nil, evCall(fSetVer), "setVersion")
-		}
-		r.End()
+		ruleInstallAfterDurable(p, r, "C04.6")
 	}
 
 	if want("C04.7") {
@@ -324,6 +301,37 @@ func ruleTrCommitOrder(p *Prog, r *Report, rule string) {
 		ordNotOnError(p, r, fn, "no-commit-on-flush-error", mErrOfCall("(*leveldb.Transaction).flush"), "tr.flush", fl, commit, "s.commit")
 		checkCallArg(p, r, fn, "seqnum-is-tr.seq", fSetSeqNum, 1, mFieldLoad(tTr, "seq"), "tr.seq")
 		checkCallArg(p, r, fn, "setSeq-is-tr.seq", "(*leveldb.DB).setSeq", 1, mFieldLoad(tTr, "seq"), "tr.seq")
+	}
+	r.End()
+}
+
+func ruleAckAfterLog(p *Prog, r *Report, rule string) {
+	r.Begin(rule, "E-ORD", "acknowledge after logging: in writeLocked the buffer insert, the sequence publication and the success unlock are reached only after writeJournal returned nil", 3)
+	if fn := resolveFn(p, r, "leveldb", "(*DB).writeLocked"); fn != nil {
+		wj := evCall("(*leveldb.DB).writeJournal")
+		errWJ := mErrOfCall("(*leveldb.DB).writeJournal")
+		putMem := evCall("(*leveldb.Batch).putMem")
+		addSeq := evCall("(*leveldb.DB).addSeq")
+		okUnlock := andPred(evCall("(*leveldb.DB).unlockWrite"), func(in ssa.Instruction) bool {
+			cc := callCommon(in)
+			return cc != nil && len(cc.Args) == 4 && isNilConst(cc.Args[3])
+		})
+		ordPrecede(p, r, fn, "journal-before-putMem", nil, wj, "writeJournal", putMem, "batch.putMem")
+		ordPrecede(p, r, fn, "journal-before-addSeq", nil, wj, "writeJournal", addSeq, "db.addSeq")
+		ordPrecede(p, r, fn, "journal-before-ack", nil, wj, "writeJournal", okUnlock, "unlockWrite(.., nil)")
+		ordNotOnError(p, r, fn, "putMem-not-on-journal-error", errWJ, "writeJournal", wj, putMem, "batch.putMem")
+		ordNotOnError(p, r, fn, "ack-not-on-journal-error", errWJ, "writeJournal", wj, okUnlock, "unlockWrite(.., nil)")
+	}
+	r.End()
+}
+
+func ruleInstallAfterDurable(p *Prog, r *Report, rule string) {
+	r.Begin(rule, "E-ORD", "install after durable: session.commit installs the new version only after the manifest write succeeded", 2)
+	if fn := resolveFn(p, r, "leveldb", "(*session).commit"); fn != nil {
+		manWrite := evCall(fNewMan, fFlushMan)
+		ordPrecede(p, r, fn, "manifest-before-install", nil, manWrite, "newManifest/flushManifest", evCall(fSetVer), "setVersion")
+		ordNotOnError(p, r, fn, "no-install-on-error", mCellNamed("err"), "the manifest write", nil, evCall(fSetVer), "setVersion")
+		ordOnSuccess(p, r, fn, "installed-on-success", nil, evCall(fSetVer), "setVersion")
 	}
 	r.End()
 }
